@@ -1036,6 +1036,8 @@ enum Op {
     Predict(u64, Vec<Det>),
     Batch(Vec<(u64, Vec<Det>)>),
     Skip(u64, usize),
+    /// the scene-less TrackerAPI::skip_epochs(n) (documented: scene 0)
+    Skip0(usize),
     Wasted,
     Idle(u64),
     Clear,
@@ -1191,6 +1193,7 @@ fn parse_op(text: &str) -> Op {
                 .collect(),
         ),
         "skip" => Op::Skip(kv(&toks, "scene").parse().unwrap(), kv(&toks, "n").parse().unwrap()),
+        "skip0" => Op::Skip0(kv(&toks, "n").parse().unwrap()),
         "wasted" => Op::Wasted,
         "idle" => Op::Idle(kv(&toks, "scene").parse().unwrap()),
         "clear" => Op::Clear,
@@ -1846,6 +1849,7 @@ fn run_ops<D: Driver>(c: &Config, ops: &[String], parsed: &[Op], mut trk: D) {
                 }
             }
             Op::Skip(scene, n) => guarded(|| trk.api_mut().skip_epochs_for_scene(*scene, *n)).map(|_| "res unit".into()),
+            Op::Skip0(n) => guarded(|| trk.api_mut().skip_epochs(*n)).map(|_| "res unit".into()),
             Op::Wasted => guarded(|| trk.api_mut().wasted()).map(|mut ts| {
                 ts.sort_by_key(|t| t.get_track_id());
                 line("res wasted", ts.iter().map(|t| fmt_trk(t, &cls)).collect::<Vec<_>>().join(";"))
